@@ -390,6 +390,9 @@ class CylcWorkflowDAO:
         self.is_public = is_public
         self.conn: Optional[sqlite3.Connection] = None
         self.n_tries = 0
+        # (Public DB only) statements of writes that did not complete,
+        # to be retried in their original order before anything newer.
+        self.pending_sql_queue: List[Tuple[str, list]] = []
 
         self.tables = {
             name: CylcWorkflowDAOTable(name, attrs)
@@ -496,6 +499,16 @@ class CylcWorkflowDAO:
             for stmt, stmt_args_list in table.update_queues.items():
                 sql_queue.append((stmt, stmt_args_list))
 
+        if self.is_public:
+            # Retry any previously failed write first, as it was. (Leaving
+            # its items in the table queues would merge them with the new
+            # ones, e.g. running the DELETEs of this write before the INSERTs
+            # of the failed one, so the public DB would end up different
+            # from the private DB.)
+            sql_queue = self.pending_sql_queue + sql_queue
+            self.pending_sql_queue = sql_queue
+            self._clear_table_queues()
+
         # execute the statements and commit the transaction
         try:
             for stmt, stmt_args in sql_queue:
@@ -557,10 +570,8 @@ class CylcWorkflowDAO:
 
         else:
             # Clear the queues
-            for table in self.tables.values():
-                table.delete_queues.clear()
-                table.insert_queue.clear()
-                table.update_queues.clear()
+            self._clear_table_queues()
+            self.pending_sql_queue = []
             # Report public database retry recovery if necessary
             if self.n_tries:
                 LOG.info(
@@ -573,6 +584,17 @@ class CylcWorkflowDAO:
             # directory is removed, a forced reconnection to the private
             # database will ensure that the workflow dies.
             self.close()
+
+    def _clear_table_queues(self) -> None:
+        """Empty the per-table queues.
+
+        The queued argument lists may still be referenced by a list of
+        statements awaiting execution, so replace rather than empty them.
+        """
+        for table in self.tables.values():
+            table.delete_queues = {}
+            table.insert_queue = []
+            table.update_queues = defaultdict(list)
 
     def _execute_stmt(self, stmt, stmt_args_list):
         """Helper for "self.execute_queued_items".
